@@ -11,7 +11,7 @@
 (*   couple : one state per (number of formats, number of outfiles);        *)
 (*   gstr / gword : one state per user data text for the typed getters.     *)
 EXTENDS Config, TLC, Json
-CONSTANTS MaxDefine, MaxFiles, MaxPad, MaxGetter, MaxPath
+CONSTANTS MaxDefine, MaxFiles, MaxPad, MaxGetter, MaxPath, MaxHist
 
 DefAlphabet == {"a", "=", " ", "\"", "'"}
 GetAlphabet == {"1", "0", "7", "-", "+", ".", " ", "x"}
@@ -53,29 +53,40 @@ ModeLayers == {LayerInit(k, <<f>>, c, <<mf>>, mc, TRUE) :
                    k \in ModeTargets, f \in Assigns, c \in Assigns, mf \in Assigns, mc \in Assigns}
 Layers == {l \in PlainLayers \cup ModeLayers : l.cmd \in CmdChoices(l.kind)}
 
-VARIABLES ph, txt, lay, aux
-vars == <<ph, txt, lay, aux>>
-Init == ph = "start" /\ txt = <<>> /\ lay = NoLay /\ aux = NoAux
-StartDefine == ph = "start" /\ ph' = "dstr" /\ txt' = <<>> /\ UNCHANGED <<lay, aux>>
-GrowDefine  == ph = "dstr" /\ Len(txt) < MaxDefine /\ \E c \in DefAlphabet : txt' = Append(txt, c) /\ UNCHANGED <<ph, lay, aux>>
-StartGetter == ph = "start" /\ ph' = "gstr" /\ txt' = <<>> /\ UNCHANGED <<lay, aux>>
-GrowGetter  == ph = "gstr" /\ Len(txt) < MaxGetter /\ \E c \in GetAlphabet : txt' = Append(txt, c) /\ UNCHANGED <<ph, lay, aux>>
-PickWord   == ph = "start" /\ ph' = "gword" /\ txt' \in BoolPool /\ UNCHANGED <<lay, aux>>
-PickLayer  == ph = "start" /\ ph' = "layer" /\ lay' \in Layers /\ UNCHANGED <<txt, aux>>
-StepLayer  == ph = "layer" /\ ~LayerDone(lay) /\ lay' = LayerStep(lay) /\ UNCHANGED <<ph, txt, aux>>
-PickForm   == ph = "start" /\ ph' = "rsel" /\ UNCHANGED <<txt, lay>>
+\* histories of constructions in one process: the first one reads a file that assigns the option, the later
+\* ones are arbitrary (no file, a file that omits or assigns the option, load_config=False, any command line)
+HistKinds == Kinds \ {"udupdate"}
+FirstCons(k) == {[kind |-> k, files |-> <<f>>, cmd |-> "absent", load |-> TRUE] : f \in {"v1", "v2"}}
+LaterCons(k) == {[kind |-> k, files |-> fs, cmd |-> c, load |-> l] :
+                    fs \in {<<>>, <<"absent">>, <<"v1">>, <<"v2">>}, c \in CmdChoices(k), l \in BOOLEAN}
+Histories == UNION {{<<a>> \o t : a \in FirstCons(k), t \in UNION {[1..n -> LaterCons(k)] : n \in 1..(MaxHist - 1)}} : k \in HistKinds}
+NoHist == HistInit(<<[kind |-> "scalar", files |-> <<>>, cmd |-> "absent", load |-> TRUE]>>)
+
+VARIABLES ph, txt, lay, aux, hist
+vars == <<ph, txt, lay, aux, hist>>
+Init == ph = "start" /\ txt = <<>> /\ lay = NoLay /\ aux = NoAux /\ hist = NoHist
+StartDefine == ph = "start" /\ ph' = "dstr" /\ txt' = <<>> /\ UNCHANGED <<lay, aux, hist>>
+GrowDefine  == ph = "dstr" /\ Len(txt) < MaxDefine /\ \E c \in DefAlphabet : txt' = Append(txt, c) /\ UNCHANGED <<ph, lay, aux, hist>>
+StartGetter == ph = "start" /\ ph' = "gstr" /\ txt' = <<>> /\ UNCHANGED <<lay, aux, hist>>
+GrowGetter  == ph = "gstr" /\ Len(txt) < MaxGetter /\ \E c \in GetAlphabet : txt' = Append(txt, c) /\ UNCHANGED <<ph, lay, aux, hist>>
+PickWord   == ph = "start" /\ ph' = "gword" /\ txt' \in BoolPool /\ UNCHANGED <<lay, aux, hist>>
+PickLayer  == ph = "start" /\ ph' = "layer" /\ lay' \in Layers /\ UNCHANGED <<txt, aux, hist>>
+StepLayer  == ph = "layer" /\ ~LayerDone(lay) /\ lay' = LayerStep(lay) /\ UNCHANGED <<ph, txt, aux, hist>>
+PickForm   == ph = "start" /\ ph' = "rsel" /\ UNCHANGED <<txt, lay, hist>>
                 /\ \E f \in Forms, n \in Names, v \in Values :
                       aux' = [NoAux EXCEPT !.form = f, !.n = n, !.v = IF f = "bare" THEN <<>> ELSE v]
-PickRender == ph = "rsel" /\ ph' = "render" /\ UNCHANGED <<txt, lay>>
+PickRender == ph = "rsel" /\ ph' = "render" /\ UNCHANGED <<txt, lay, hist>>
                 /\ \E q \in (IF aux.form \in {"qpair", "qvalue"} THEN Quotes ELSE {""}),
                       pd \in {x \in Pads : \A k \in 1..6 : ~UsesPad(aux.form, k) => x[k] = 0} :
                       aux' = [aux EXCEPT !.q = q, !.pads = pd]
-PickPath   == ph = "start" /\ ph' = "path" /\ UNCHANGED <<txt, lay>>
+PickPath   == ph = "start" /\ ph' = "path" /\ UNCHANGED <<txt, lay, hist>>
                 /\ \E c \in Cwds, d \in FileDirs, pa \in BOOLEAN, ps \in SegSeqs(MaxPath) :
                       aux' = [NoAux EXCEPT !.cwd = c, !.d = d, !.p = [abs |-> pa, segs |-> IF pa THEN <<"r">> \o ps ELSE ps]]
-PickCouple == ph = "start" /\ ph' = "couple" /\ UNCHANGED <<txt, lay>>
+PickCouple == ph = "start" /\ ph' = "couple" /\ UNCHANGED <<txt, lay, hist>>
                 /\ \E nf \in 0..3, no \in 0..3 : aux' = [NoAux EXCEPT !.nf = nf, !.no = no]
-Next == StartDefine \/ GrowDefine \/ StartGetter \/ GrowGetter \/ PickWord \/ PickLayer \/ StepLayer \/ PickForm \/ PickRender \/ PickPath \/ PickCouple
+PickHist   == ph = "start" /\ ph' = "hist" /\ hist' \in {HistInit(c) : c \in Histories} /\ UNCHANGED <<txt, lay, aux>>
+StepHist   == ph = "hist" /\ ~HistDone(hist) /\ hist' = HistStep(hist) /\ UNCHANGED <<ph, txt, lay, aux>>
+Next == PickHist \/ StepHist \/ StartDefine \/ GrowDefine \/ StartGetter \/ GrowGetter \/ PickWord \/ PickLayer \/ StepLayer \/ PickForm \/ PickRender \/ PickPath \/ PickCouple
 Spec == Init /\ [][Next]_vars
 
 \* ---------------------------------------------------------------- layering laws
@@ -102,6 +113,14 @@ UserdataOverride ==
 ForcedOnlyByMode ==
    AtEnd => /\ lay.mstore = Resolve(lay.mfiles, lay.mcmd)
             /\ (lay.store = <<"forced">>) = Forced
+\* a construction resolves by its own layers only, whatever the earlier constructions of the process have read,
+\* and the class-level defaults stay the built-in ones
+ConWant(con) == IF con.kind \in AppendKinds
+                THEN Resolve(ConFiles(con), "absent") \o (IF con.cmd = "absent" THEN <<>> ELSE <<CTok(con.cmd)>>)
+                ELSE Resolve(ConFiles(con), con.cmd)
+HistoryIndependent ==
+   ph = "hist" => /\ hist.cls = <<"d">>
+                  /\ \A k \in DOMAIN hist.results : hist.results[k] = ConWant(hist.cons[k])
 \* ---------------------------------------------------------------- define laws
 Rendered == Render(aux.form, aux.n, aux.v, aux.q, aux.pads)
 \* every documented form parses to its name and value, and the recogniser knows it
@@ -139,6 +158,8 @@ Emit ==
          PrintT(<<"CASE", ToJson([k |-> "layer", okind |-> lay.kind, files |-> lay.files, cmd |-> lay.cmd,
                                   mfiles |-> lay.mfiles, mcmd |-> lay.mcmd, hasmode |-> lay.hasmode,
                                   pred |-> LayerRun(lay).store])>>)
+   /\ ph = "hist" /\ hist.k = 1 /\ hist.cur.pc = 0 =>
+         PrintT(<<"CASE", ToJson([k |-> "hist", okind |-> hist.cons[1].kind, cons |-> hist.cons])>>)
    /\ ph = "path"   => PrintT(<<"CASE", ToJson([k |-> "path", cwd |-> aux.cwd, d |-> aux.d, p |-> aux.p])>>)
    /\ ph = "couple" => PrintT(<<"CASE", ToJson([k |-> "couple", nf |-> aux.nf, no |-> aux.no])>>)
 =============================================================================
